@@ -161,11 +161,14 @@ Proof.
     destruct (rleb rin d); reflexivity.
 Qed.
 
-(* wedge: bearing strictly inside or strictly outside the angle range (by the enclosure B0 +- 1e-5) *)
-Lemma K_wedge_dec w l1 f1 rin rout amin amax l2 f2 B0 (inang b : bool) :
-  amax - amin < 360 ->
+(* wedge: bearing strictly inside or strictly outside the angle range, modulo 360 (after repair D36):
+   v = B0 - amin + 360 n is the enclosure centre reduced to [0, 360) by the whole number of turns n the
+   harness supplies; the decision is proved for every bearing of the enclosure B0 +- 1e-5 *)
+Lemma K_wedge_dec w l1 f1 rin rout amin amax l2 f2 B0 (n : Z) (inang b : bool) :
+  0 <= amax - amin < 360 ->
   Rabs (bearing (l1, f1) (l2, f2) - B0) <= / 10 ^ 5 ->
-  (if inang then amin + / 10 ^ 5 <= B0 <= amax - / 10 ^ 5 else (B0 < amin - / 10 ^ 5 \/ amax + / 10 ^ 5 < B0)) ->
+  (let v := B0 - amin + 360 * IZR n in
+   if inang then / 10 ^ 5 <= v <= amax - amin - / 10 ^ 5 else amax - amin + / 10 ^ 5 < v < 360 - / 10 ^ 5) ->
   wrap_ok w l1 l2 ->
   0 < 1 - hav_a (rad l1) (rad f1) (rad (wrap_lon w l2)) (rad f2) ->
   (let d := hdist_expr l1 f1 (wrap_lon w l2) f2 in
@@ -173,21 +176,25 @@ Lemma K_wedge_dec w l1 f1 rin rout amin amax l2 f2 B0 (inang b : bool) :
   ring_contains (mkring (l1, f1) rin rout amin amax []) (l2, f2) = b.
 Proof.
   intros Ha HB Hang Hw Hp H. unfold ring_contains; cbn [r_center r_inner r_outer r_amin r_amax r_holes in_holes existsb].
-  assert (E : rltb (amax - amin) 360 = true) by (apply rltb_true; exact Ha). rewrite E. cbn [andb].
+  assert (E : rltb (amax - amin) 360 = true) by (apply rltb_true; apply Ha). rewrite E. cbn [andb].
   apply Rabs_le_inv in HB. set (bb := bearing (l1, f1) (l2, f2)) in *.
-  cbv zeta in *. destruct inang.
-  - assert (E1 : rleb amin bb = true) by (apply rleb_true; lra).
-    assert (E2 : rleb bb amax = true) by (apply rleb_true; lra).
-    rewrite E1, E2. cbn [andb negb]. rewrite (hdist_is_expr w) by assumption.
+  assert (P5 : 0 < / 10 ^ 5) by (apply Rinv_0_lt_compat, pow_lt; lra).
+  cbv zeta in *.
+  assert (M : Rmod (bb - amin) 360 = bb - amin + 360 * IZR n).
+  { rewrite (Rmod_eq (bb - amin) 360 (- n)%Z); [rewrite opp_IZR; ring|lra|].
+    rewrite opp_IZR. clearbody bb. set (t := IZR n) in *. clearbody t. set (e := / 10 ^ 5) in *. clearbody e.
+    destruct inang; cbv iota in Hang; lra. }
+  rewrite M. destruct inang.
+  - assert (E1 : rltb (amax - amin) (bb - amin + 360 * IZR n) = false) by (apply rltb_false; lra).
+    rewrite E1. rewrite (hdist_is_expr w) by assumption.
     set (d := hdist_expr l1 f1 (wrap_lon w l2) f2) in *.
     destruct b.
     + destruct H as [H1 H2]. apply rleb_true in H1, H2. rewrite H1, H2. reflexivity.
     + destruct H as [H|H]; apply rleb_false in H; rewrite H; cbn; [reflexivity|].
       destruct (rleb rin d); reflexivity.
-  - subst b. destruct Hang as [Hang|Hang].
-    + assert (E1 : rleb amin bb = false) by (apply rleb_false; lra). rewrite E1. reflexivity.
-    + assert (E2 : rleb bb amax = false) by (apply rleb_false; lra). rewrite E2.
-      destruct (rleb amin bb); reflexivity.
+  - subst b.
+    assert (E1 : rltb (amax - amin) (bb - amin + 360 * IZR n) = true) by (apply rltb_true; lra).
+    rewrite E1. reflexivity.
 Qed.
 
 (* ---------------------------------------------------------------- ellipse membership (no holes) *)
